@@ -56,7 +56,7 @@ for _v in DV.TREEINFO_VERSIONS:
     CLASS_FLOORS["accepted-treeinfo-" + _v] = 5
 CLASS_FLOORS.update({"fixtures-treeinfo": 60, "fixtures-discinfo": 50, "fixtures-images": 3, "fixtures-composeinfo": 2,
                      "legacy-prefix-children": 5, "legacy-product-section": 5, "images-src-moved": 5, "rpms-0.3-src": 5,
-                     "treeinfo-0.3-src-tree": 3, "treeinfo-0.0-legacy-image-section": 3, "treeinfo-0.0-blank-packagedir-with-repository": 3, "treeinfo-0.0-addons-in-id-named-sections": 10})
+                     "treeinfo-0.3-src-tree": 3, "treeinfo-0.0-legacy-image-section": 3, "treeinfo-0.0-blank-packagedir-with-repository": 3, "treeinfo-0.0-addons-in-id-named-sections": 10, "treeinfo-0.0-known-product-family": 10})
 
 
 def plan(tier):
@@ -108,6 +108,8 @@ def diff(a, b, path=""):
             out.append("%s: %d entries expected, %d observed" % (path, len(a), len(b)))
         for i, (x, y) in enumerate(zip(a, b)):
             out.extend(diff(x, y, "%s[%d]" % (path, i)))
+    elif isinstance(a, str) and a == DV.NOT_JUDGED:
+        pass
     elif a != b or (type(a) is not type(b) and not (isinstance(a, (int, float)) and isinstance(b, (int, float)))):
         out.append("%s: expected %r, observed %r" % (path, a, b))
     return out[:8]
@@ -262,7 +264,20 @@ def gen_cases(ctx, pms, rng, per_version):
                 suffix = "-" + D["tree"]["arch"]
                 D["tree"]["platforms"] = [p for p in D["tree"]["platforms"] if not p.endswith(suffix)]
                 D["images"] = dict((p, t) for p, t in D["images"].items() if not p.endswith(suffix))
+            known_family = version == "0.0" and i % 5 == 2
+            if known_family:
+                # a product family the pre-productmd reader special-cases (names, add-ons and package directories of RHEL 3-6,
+                # CentOS, ...).  That mapping is code, not documentation: the facts are not judged, the conversion cycle is
+                # (accepted -> current header, identical reload, byte-identical second write)
+                D["legacy_known_family"] = DV.KNOWN_FAMILIES[(i // 5) % len(DV.KNOWN_FAMILIES)]
+                D["release"]["version"] = ["5.11", "6.10", "4.8", "3.9", "7.0", "5.0", "6Server", "5.11-Beta"][(i // 5) % 8]
+                if (i // 5) % 3 == 0:
+                    top = sorted(D["variants"], key=lambda x: x["uid"])[0]
+                    top["id"] = top["uid"] = ["Server", "Client"][(i // 15) % 2]
             textin, E = DV.treeinfo(D, version, rng)
+            if known_family:
+                E = None
+                ctx.count("treeinfo-0.0-known-product-family")
             case = {"fmt": "treeinfo", "version": version, "document": textin}
             if version == "0.3" and D["tree"]["arch"] == "src":
                 ctx.count("treeinfo-0.3-src-tree")
